@@ -28,9 +28,9 @@ m = {
               "enable": "no source hooks are installed: the harness wraps the library in-process (subclassing / monkey-patching inside the check's own interpreter)",
               "baseline_off_cmd": "cd /repo && /venv/bin/python -m pytest -ra -q -p no:cacheprovider --timeout=900 --continue-on-collection-errors",
               "source_commits": [], "add_only": True},
-    "engines": [{"name": "lean4-model+correspondence", "path": "lean/, harness/, tools/translate.py, check",
+    "engines": [{"name": "lean4-model+correspondence", "path": "lean/, harness/, tools/py2lean.py, tools/translate.py, tools/popexp.py, check",
                  "serves_properties": [c["property_id"] for c in checks],
-                 "kind_free_text": "Lean 4 model and theorems (lean/PvModel), generated fact tables (tools/translate.py -> lean/PvModel/Generated), model driver (lean/Driver), Python differential harness (harness/pvh)"}],
+                 "kind_free_text": "Lean 4 model and theorems (lean/PvModel), structural functions translated from the source (tools/py2lean.py -> lean/PvModel/Generated/Src.lean) with refinement theorems (Props/R*.lean), generated fact tables (tools/translate.py, tools/popexp.py -> lean/PvModel/Generated), model driver (lean/Driver), Python differential harness (harness/pvh)"}],
     "checks": checks,
     "not_applicable": [{"property_id": p["id"], "reason": claims["unclaimed"].get(p["id"], "check under construction (not yet claimed); see DESIGN.md §4")} for p in props if p["id"] not in claims["claimed"]],
     "notes": "see DESIGN.md; known findings in known_findings.json",
